@@ -70,6 +70,8 @@ class C06(Property):
         ("antismash/common/secmet/features/cdscollection.py", "CDSCollection.__init__"),
         ("antismash/common/secmet/features/cdscollection.py", "CDSCollection.__lt__"),
         ("antismash/common/secmet/features/cdscollection.py", "CDSCollection.parent"),
+        ("antismash/common/secmet/features/cdscollection.py", "CDSCollection.get_root"),
+        (R, "Record.from_biopython"),
         ("antismash/common/secmet/features/feature.py", "Feature.__init__"),
         ("antismash/common/secmet/features/feature.py", "Feature.overlaps_with"),
         ("antismash/common/secmet/features/feature.py", "Feature.is_contained_by"),
@@ -229,6 +231,52 @@ class C06(Property):
             return ["addProto", loc, {"c": False, "parts": [[lo, min(hi, lo + 1), 1]]}]
         return op
 
+    def explicit_case(self, rng: random.Random) -> Dict[str, Any]:
+        """create_regions(candidate_clusters=…, subregions=…) with explicitly passed lists — one of them often
+           EMPTY while the record holds areas of that kind (e.g. two candidates given with subregions=[] and a
+           subregion of the record bridging them): regions must be built from exactly the given areas"""
+        n, grid = rng.choice([(100, 1), (100, 5), (1000, 10), (1000, 50), (50, 1)])
+        circ = rng.random() < 0.4
+        ops: List[List[Any]] = []
+        k = rng.choice([2, 2, 3, 4])
+        width = max(grid, n // (4 * k))
+        starts = sorted(rng.sample(range(0, n - width, max(1, grid)), k)) if n - width > k * grid else [0]
+        spans = [(a, min(n, a + rng.randrange(1, width // grid + 1) * grid)) for a in starts]
+        for lo, hi in spans:
+            loc = simple(lo, hi)
+            if rng.random() < 0.6:
+                ops.append(["addProto", loc, self.core_of(rng, loc)])
+            else:
+                ops.append(["addSub", loc])
+        # areas of the other kind bridging neighbours
+        for (lo1, hi1), (lo2, hi2) in zip(spans, spans[1:]):
+            if rng.random() < 0.6 and hi1 - 1 > lo1 and lo2 + 1 < hi2:
+                a, b = rng.randrange(lo1, hi1), rng.randrange(lo2 + 1, hi2 + 1)
+                if a >= b:
+                    continue
+                loc = simple(a, b)
+                if rng.random() < 0.7:
+                    ops.append(["addSub", loc])
+                else:
+                    ops.append(["addProto", loc, self.core_of(rng, loc)])
+        rng.shuffle(ops)
+        if any(o[0] == "addProto" for o in ops):
+            ops.append(["createCands"])
+        r = rng.random()
+        many = [rng.randrange(0, 8) for _ in range(rng.choice([1, 2, 3, 4]))]
+        if r < 0.4:
+            ops.append(["createRegionsWith", many, []])
+        elif r < 0.7:
+            ops.append(["createRegionsWith", [], many])
+        elif r < 0.8:
+            ops.append(["createRegionsWith", [], []])
+        else:
+            ops.append(["createRegionsWith", many, [rng.randrange(0, 8) for _ in range(rng.choice([1, 2]))]])
+        if rng.random() < 0.4:
+            ops.append(["clearRegions"])
+            ops.append(rng.choice([["createRegions"], ["createRegionsWith", [], many], ["createRegionsWith", many, []]]))
+        return {"len": n, "circ": circ, "cds": [], "ops": ops}
+
     def clear_case(self, rng: random.Random) -> Dict[str, Any]:
         """regions exist, then clears / explicit-list creations / re-creations in any order while every area
            ever constructed stays referenced (the dump follows the parent links of all of them)"""
@@ -382,7 +430,7 @@ class C06(Property):
             if r < 5:
                 yield self.layout_case(rng)
             elif r < 6:
-                yield self.clear_case(rng)
+                yield self.clear_case(rng) if i % 20 < 10 else self.explicit_case(rng)
             elif r < 8:
                 yield self.history_case(rng)
             elif r < 9:
@@ -593,6 +641,7 @@ class C06(Property):
                         cs = dedupe(pick(tuple(rec.get_candidate_clusters()) + tuple(pool), op[1]))
                         ss = dedupe(pick(rec.get_subregions(), op[2]))
                         prim.append(["createRegionsWith", [ids.get(c) for c in cs], [ids.get(x) for x in ss]])
+                        given = [[ids.get(a), common.location_json(a.location)] for a in cs + ss]
                         rec.create_regions(candidate_clusters=cs, subregions=ss)
                     elif kind == "roundtrip":
                         if n > 2000 or cdses:
@@ -653,12 +702,18 @@ class C06(Property):
                     else:
                         raise ValueError(f"unknown op {kind}")
                 except Exception as exc:  # pylint: disable=broad-except
-                    groups.append({"op": op[0], "ops": prim, "impl": {"err": err_kind(exc), "msg": str(exc)[:200]}})
+                    group = {"op": op[0], "ops": prim, "impl": {"err": err_kind(exc), "msg": str(exc)[:200]}}
+                    if op[0] == "createRegionsWith" and prim:
+                        group["given"] = given
+                    groups.append(group)
                     break
                 state = dump()
                 if kind == "roundtrip":
                     state["rt"] = rt_problems
-                groups.append({"op": op[0], "ops": prim, "impl": state})
+                group = {"op": op[0], "ops": prim, "impl": state}
+                if kind == "createRegionsWith":
+                    group["given"] = given
+                groups.append(group)
         finally:
             logging.disable(logging.NOTSET)
         return {"groups": groups}
@@ -667,7 +722,8 @@ class C06(Property):
         if "groups" not in obs:
             return {"len": case["len"], "circ": case["circ"], "cds": case.get("cds", []), "groups": []}
         return {"len": case["len"], "circ": case["circ"], "cds": case.get("cds", []),
-                "groups": [{"ops": g["ops"], "impl": g["impl"]} for g in obs["groups"]]}
+                "groups": [dict({"ops": g["ops"], "impl": g["impl"]}, **({"given": g["given"]} if "given" in g else {}))
+                           for g in obs["groups"]]}
 
     # ------------------------------------------------------------------ judge
     MODEL_KEYS = ("protos", "cands", "subs", "regions", "cds", "held")
@@ -686,7 +742,7 @@ class C06(Property):
         nontrivial = False
         regions_before = False
         clash = half = False           # the two recorded classes, accumulated over the history so far
-        order_failed = component_failed = False
+        order_failed = component_failed = foreign_member = False
         for i, (g, step) in enumerate(zip(obs["groups"], drv["steps"])):
             impl, model, spec = g["impl"], step["model"], step["spec"]
             op = g["op"]
@@ -699,7 +755,10 @@ class C06(Property):
                     corr = False
                     detail = detail or f"step {i} ({op}): implementation raised {impl['err']} ({impl.get('msg')}), model {str(model)[:300]}"
                 # ---- spec: automatic region creation must succeed on well-formed areas
-                must_succeed = (op == "createRegions" and not regions_before) or op in CLEARS
+                must_succeed = (op in ("createRegions", "createRegionsWith") and not regions_before) or op in CLEARS
+                if op == "createRegionsWith":
+                    # the recorded ring classes are judged on the given areas
+                    half = half or any(s_.get("given") and s_["given"].get("half") for s_ in drv["steps"][:i + 1])
                 if must_succeed and wf:
                     spec_ok = False
                     component_failed = True
@@ -737,6 +796,23 @@ class C06(Property):
             for ridx, row in enumerate(impl["regions"]):
                 if any(impl["cds"][c] != ridx + 1 for c in row[4]):
                     problems.append("cds.region does not point at the region holding the cds")
+            gs = step.get("given")
+            if op == "createRegionsWith" and gs and not regions_before:
+                # create_regions(candidate_clusters=…, subregions=…): regions are built from exactly the given areas
+                half = half or bool(gs.get("half"))
+                clash = clash or bool(gs.get("clash"))
+                if not gs["members_given"]:
+                    foreign_member = True
+                    problems.append("a region lists an area that was not passed to create_regions(candidate_clusters=…, "
+                                    "subregions=…)")
+                for key in ("partition", "exact", "wf"):
+                    if not gs[key]:
+                        problems.append(f"regions are not the components of the given areas ({key}); expected classes "
+                                        f"{gs['classes']}")
+                        component_failed = True
+                tags.append("explicit-lists" + ("-empty-arg" if (not g["ops"][-1][1] or not g["ops"][-1][2]) else ""))
+                if impl["regions"]:
+                    nontrivial = True
             if step["expect_components"]:
                 for key in ("partition", "exact", "wf"):
                     if not spec[key]:
@@ -767,7 +843,9 @@ class C06(Property):
         tags.append("in-scope" if in_scope else ("malformed" if not wf else "recorded-class"))
         # a recorded class only excuses the kind of failure it stands for
         known = None
-        if not spec_ok:
+        if not spec_ok and foreign_member:
+            known = None      # no recorded class excuses a region made of areas that were not given
+        elif not spec_ok:
             if order_failed and clash:
                 known = self.KF_ORDER
             elif component_failed and not order_failed and half:
